@@ -152,9 +152,9 @@ def print_axioms(module, names, timeout=1800):
             pass
     res = {}
     txt = out + err
-    for m in re.finditer(r"'([^']+)' depends on axioms: \[([^\]]*)\]", txt):
+    for m in re.finditer(r"'(\S+)' depends on axioms: \[([^\]]*)\]", txt):
         res[m.group(1)] = [a.strip() for a in m.group(2).replace("\n", " ").split(",") if a.strip()]
-    for m in re.finditer(r"'([^']+)' does not depend on any axioms", txt):
+    for m in re.finditer(r"'(\S+)' does not depend on any axioms", txt):
         res[m.group(1)] = []
     if rc != 0 and not res:
         raise Broken("axiom audit failed for %s:\n%s" % (module, txt[-2000:]))
@@ -262,7 +262,11 @@ class Check:
         the verdict after the failing-input search (DESIGN §2.4)."""
         props_file = os.path.join(LEAN, *module.split(".")) + ".lean"
         ok, log, failed = lake_build([module] + list(extra_targets))
-        names = theorem_names(props_file)
+        try:
+            names = theorem_names(props_file)
+        except OSError:
+            names = []
+            ok = False
         info = {"module": module, "theorems": names, "failed_modules": failed, "errors": lean_errors(log)[:20]}
         self.coverage["checker_cmd"] = "cd lean && lake build %s  (Lean 4.33.0 kernel; axioms audited with #print axioms)" % module
         nobl = len(names) + extra_count
